@@ -28,6 +28,7 @@ import select
 import shutil
 import signal
 import subprocess
+import tempfile
 import time
 from pathlib import Path
 
@@ -62,8 +63,8 @@ TRUSTED_EXTRA = [
 ]
 
 PY = core.PY
-SYNC_FIRST_S = 60.0
-SYNC_S = 25.0
+SYNC_FIRST_S = 30.0
+SYNC_S = 15.0
 EXIT_S = 25.0
 
 # --------------------------------------------------------------------------------------- the world's resources
@@ -630,8 +631,8 @@ def parse_strace(text, lay):
         if not m:
             continue
         call, path, flag = m.groups()
-        if not path.startswith("/") or "/.sy/" in path:
-            continue
+        if "/.sy/" in path or not (path.startswith(lay.root + "/") or path.startswith(f"/dev/shm/sem.c20-{lay.tag}-")):
+            continue  # the sentinels; joblib's own import-time semaphore probe; anything not of this world
         if "unlinkat(" in ln and "AT_FDCWD" not in ln:
             continue
         kind = "dir" if call == "rmdir" or flag == "AT_REMOVEDIR" else "file"
@@ -754,11 +755,17 @@ def judge_world(w, replies, tags, res, swallow, idx):
             else:
                 m_leaks.add((a[1], a[2]))
 
+    # The oracle judges what the property speaks about: complete requests in the format clients send. Whether a request
+    # wrapped in blanks/CR, or a last line cut before its '\n', counts as a request is the code's choice (it accepts both):
+    # there the model alone is compared (a difference is a divergence, not a property failure).
+    o_all = not any(ev.get("fmt") for ev in spec["events"])
+    o_eof = o_all and not spec["ending"].get("tail")
+
     def compare(obs, label, final=False):
         res.evaluations += 1
         exp = ofs.state()
         for key in exp:
-            if exp[key] == obs[key]:
+            if exp[key] == obs[key] or not (o_eof if final else o_all):
                 continue
             if obs[key]:
                 sig = "tracker:leak-after-eof" if final else "tracker:not-deleted-at-zero"
@@ -938,6 +945,7 @@ def gen_world(rng, mode, big=False, strace=False):
     events = []
     n_ev = rng.choice([6, 12, 20, 30, 30, 45] + ([80, 120] if big else []))
     hot = rng.sample(REQ_KEYS, rng.choice([2, 3, 4, 6]))  # a few names get most of the traffic
+    noisy = rng.random() < 0.25  # blanks / CR around the request (accepted by the code's strip()): model-only worlds
 
     def live():
         return [i for i, a in enumerate(alive) if a]
@@ -992,7 +1000,7 @@ def gen_world(rng, mode, big=False, strace=False):
             if who != "h" and clients[who] in ("api", "root") and rng.random() < 0.85:
                 ev["via"] = "api"
             else:
-                ev["fmt"] = rng.choice([0, 0, 0, 1, 2, 3, 4])
+                ev["fmt"] = rng.choice([0, 1, 2, 3, 4]) if noisy else 0
             events.append(ev)
         elif r < 0.78:
             kind, data = rng.choice(MALFORMED)
@@ -1042,7 +1050,7 @@ def gen_world(rng, mode, big=False, strace=False):
     order = [(i, rng.choice(["kill", "exit"])) for i in live()]
     rng.shuffle(order)
     ending = dict(order=order)
-    if order and rng.random() < 0.35:
+    if order and rng.random() < 0.2:
         cmd, key, rtype = pick_req()
         ending["tail"] = dict(cmd=cmd, key=key, rtype=rtype)
     return dict(mode=mode, clients=clients[:n0], events=events, ending=ending, strace=strace)
@@ -1077,7 +1085,7 @@ def corpus_worlds():
         _req("MAYBE_UNLINK", "f0"), CK, _req("REGISTER", "f1"), _req("UNREGISTER", "f1"), _req("REGISTER", "f1"),
         _req("MAYBE_UNLINK", "f1"), CK, _req("REGISTER", "d1"), _req("UNREGISTER", "d1"), _req("UNREGISTER", "d1"), CK]))
     # unbalanced first, then register: the earlier maybe_unlink must not count (net_differs_when_unbalanced)
-    ws.append(dict(mode="direct", clients=["raw"], strace=False, ending=dict(order=[(0, "exit")], tail=dict(cmd="REGISTER", key="fs", rtype="file")), events=[
+    ws.append(dict(mode="direct", clients=["raw"], strace=False, ending=dict(order=[(0, "exit")]), events=[
         _req("MAYBE_UNLINK", "fc"), _req("MAYBE_UNLINK", "fc"), _req("REGISTER", "fc"), CK, _req("MAYBE_UNLINK", "fc"), CK,
         _req("MAYBE_UNLINK", "fc"), CK]))
     # same path under two types (type confusion): order of the EOF clean-up becomes visible in the warnings
@@ -1087,7 +1095,12 @@ def corpus_worlds():
     # every malformed line, with names registered around them
     ws.append(dict(mode="direct", clients=["raw"], strace=False, ending=dict(order=[(0, "kill")]), events=(
         [_req("REGISTER", "f1"), _req("REGISTER", "f1")] + [raw(k) for k, _ in MALFORMED] + [CK, _req("MAYBE_UNLINK", "f1"), CK,
-         _req("MAYBE_UNLINK", "f1", fmt=4), CK])))
+         _req("MAYBE_UNLINK", "f1"), CK])))
+    # blanks / CR LF around requests, and a last line cut before its newline (accepted by the code; model-only)
+    ws.append(dict(mode="direct", clients=["raw"], strace=False,
+                   ending=dict(order=[(0, "kill")], tail=dict(cmd="REGISTER", key="fs", rtype="file")), events=[
+        _req("REGISTER", "f0", fmt=1), _req("REGISTER", "f0", fmt=2), _req("MAYBE_UNLINK", "f0", fmt=3), CK,
+        _req("MAYBE_UNLINK", "f0", fmt=4), CK, _req("REGISTER", "d0", fmt=2), CK]))
     # the module's own path: ensure_running + register/maybe_unlink/unregister from three processes; root killed first
     ws.append(dict(mode="api", clients=["root", "api", "raw"], strace=False,
                    ending=dict(order=[(0, "kill"), (2, "exit"), (1, "kill")]), events=[
@@ -1154,8 +1167,7 @@ USAGE_EXPECT = {
 
 
 def run_usage(ctx, res, variant, idx):
-    root = ctx.scratch / f"usage-{variant}-{idx}"
-    root.mkdir()
+    root = Path(tempfile.mkdtemp(prefix=f"usage-{variant}-{idx}-", dir=ctx.scratch))
     err = root / "stderr"
     desc = dict(usage=variant)
     with open(err, "wb") as ef:
@@ -1317,7 +1329,7 @@ def run(ctx):
     if ctx.thorough:
         worlds += _worlds(ctx, 700, 80, 12, "main", big=True)
     else:
-        worlds += _worlds(ctx, 70, 10, 2, "main")
+        worlds += _worlds(ctx, 200, 30, 4, "main")
     return _explore(ctx, worlds, "w")
 
 
